@@ -84,6 +84,7 @@ BODIES = {
     'partial': "give_partial(0.25)\ngive_partial('10%')\n",
     'correct-if-ok': "if not get_exception():\n    set_correct()\n",
     'output-check': "if 'hi' in ''.join(get_output()):\n    compliment('You greeted.')\n",
+    'turtle-sides': "sides = [c for c in get_module('turtles').calls if c[0] in ('forward', 'fd', 'right', 'left')]\nif len(sides) < 2:\n    gently('I only saw your turtle move %d times.' % len(sides), label='few_turtle_calls')\nelse:\n    compliment('The turtle moved %d times.' % len(sides))\n",
     'has-len': "ensure_function_call('len')\nassert_equal(evaluate('len([1, 2, 3])'), 3)\n",
 }
 TAILS = {'none': '', 'crash': "raise RuntimeError('instructor script crashed')\n", 'early-resolve': "resolve()\n",
@@ -122,6 +123,9 @@ def build_pool(seed, n):
             pre[0] = pre_names[i]
         if i < len(sub_names):
             sub = sub_names[i]
+        # a body that looks at what a mocked module recorded goes with a submission that uses that module
+        if sub in ('turtle-use', 'turtle-assign') and 'turtle-sides' not in bodies:
+            bodies = bodies + ['turtle-sides']
         script = 'from pedal import *\n' + ''.join(PRELUDES[p][0] for p in pre) + ''.join(BODIES[b] for b in bodies) + TAILS[tail]
         leaky = any(PRELUDES[p][1] for p in pre) or tail != 'none' or sub in ('turtle-assign', 'math-assign', 'bakery-count')
         pool.append({'script': script, 'code': SUBMISSIONS[sub], 'env': env, 'tags': pre + bodies + [tail, sub, env], 'leaky': leaky})
@@ -268,6 +272,15 @@ def pairs(tier):
                 continue
             yield {'pool_seed': seed, 'pool_size': n, 'history': [j, i, j]}
             k += 1
+    # "grading the same pair twice gives identical results": every triple twice in a row, and after another use of the same module
+    turtles = [j for j, t in enumerate(pool) if 'turtle-use' in t['tags']]
+    for j in range(n):
+        if tier == 'thorough' or j % 2 == 0 or j in turtles:
+            yield {'pool_seed': seed, 'pool_size': n, 'history': [j, j]}
+    for a in turtles:
+        for b in turtles:
+            if a != b:
+                yield {'pool_seed': seed, 'pool_size': n, 'history': [a, b, a]}
 
 
 STRATEGIES = {'histories': histories}
